@@ -86,6 +86,25 @@ def _compare(rep, api, w, fam, shapes=SHAPES):
     return ok
 
 
+def _compare_history(rep, api, w1, fam1, w2, fam2):
+    """one answer object classified, its Result-Code changed in place, classified again: the verdict follows the code it carries now"""
+    ints, objs, DiameterAnswer, ResultCodeAVP = api
+    try:
+        ans = _answer(api, w1, "plain")
+        first = [bool(f(ans)) for f in objs]
+        ans.result_code_avp.data = bytes(w2)
+        second = [bool(f(ans)) for f in objs]
+    except BaseException as e:
+        rep.violation(f"answer predicates raised {type(e).__name__} on an answer whose Result-Code was changed in place", {"word": list(w1), "then": list(w2)})
+        return False
+    n1, n2 = int.from_bytes(bytes(w1), "big"), int.from_bytes(bytes(w2), "big")
+    if first != [fam1 == k for k in range(1, 6)] or second != [fam2 == k for k in range(1, 6)]:
+        rep.violation(f"answer predicates on one answer object: with Result-Code {n1} they give {first} (family {fam1}); after the code is set in place "
+                      f"to {n2} they give {second}, specification family {fam2}", {"word": list(w1), "then": list(w2)})
+        return False
+    return True
+
+
 DEFS = """
 Small == 0..65535
 BoundaryBytes == {0, 1, 3, 127, 128, 232, 255}
@@ -109,6 +128,16 @@ def run(rep):
         n = int.from_bytes(bytes(v["w"]), "big")
         allshapes = rep.tier == "thorough" or n < 7000 or n % 1000 in (0, 1, 999) or n % 13 == 0 or n > 65535
         _compare(rep, api, v["w"], v["fam"], SHAPES if allshapes else SHAPES[:1])
+        if len(rep.violations) >= 40:
+            break
+    # histories on one answer object: the code is changed in place between two classifications (pairs of TLC vectors across families)
+    picks = [vecs[i] for i in (0, 999, 1000, 1001, 2001, 2002, 2999, 3000, 3004, 4001, 4999, 5000, 5012, 5999, 6000, 9999, 65535)] + vecs[65536::97]
+    for a in picks:
+        for b in picks[::3]:
+            if a is not b:
+                rep.case(("history", tuple(a["w"]), tuple(b["w"])))
+                if not _compare_history(rep, api, a["w"], a["fam"], b["w"], b["fam"]):
+                    break
         if len(rep.violations) >= 40:
             break
     rep.sample({"word": vecs[5012]["w"], "family": vecs[5012]["fam"]})
@@ -148,5 +177,9 @@ def replay(rep, path):
     rep.tlc("Gen_Family_replay", res)
     rep.case(tuple(w))
     _compare(rep, api, vecs[0]["w"], vecs[0]["fam"])
+    then = json.load(open(path))["replay"].get("then")
+    if then:
+        v2, res2 = vectors.gen("Gen_Family_replay2", ["Types"], f"Vecs == <<[w |-> {vectors.tlc.tla(then)}, fam |-> Family({vectors.tlc.tla(then)})]>>", "Vecs")
+        _compare_history(rep, api, vecs[0]["w"], vecs[0]["fam"], v2[0]["w"], v2[0]["fam"])
     rep.sample({"word": w})
     return rep.finish()
